@@ -15,6 +15,7 @@ import ModVerif.Model.Modfile.EditAbs
 import ModVerif.Proofs.EditModel
 import ModVerif.Proofs.EditRefineExact
 import ModVerif.Proofs.EditRefineSorted
+import ModVerif.Proofs.EditRefineInvBulk
 namespace ModVerif.Props.C16
 open ModVerif ModVerif.EditSpec ModVerif.Modfile
 
@@ -238,6 +239,37 @@ theorem C16_violated_exclude_order_go_prerelease :
       (fun o => Edit.blocksOf o.tree == [([B "exclude"], [[B "a", B "v1.10.0"], [B "a", B "v1.9.0"]])] &&
                 !sortedBy EditSpec.lineExcludeLess [[B "a", B "v1.10.0"], [B "a", B "v1.9.0"]]) = true := by
   decide +kernel
+
+/-- **SetRequire on the syntax tree.**  From a state satisfying the tree invariant (Props/C15), with every typed
+    requirement live (Cleanup has just run) and under `NoNestedIndirectMarker` (which excludes exactly the recorded finding
+    `C16_violated_indirect_marker_survives` below), after `SetRequire want` + Cleanup, for EVERY map-iteration order:
+    the invariant holds again; for every requested entry the tree has a live line `require <AutoQuoted path> <version>`
+    carrying the `// indirect` marker iff requested; and every live `require` line of the tree is such a line — the file
+    contains the requested requirements and no other. -/
+theorem setRequire_tree_exact (e e' : Edit.EFile) (want : List Edit.Want) (perm : List Edit.Want → List Edit.Want)
+    (hperm : ∀ l, (perm l).Perm l) (hg : Edit.GoodWant want) (hi : Edit.Inv e)
+    (hlive : ∀ r ∈ e.f.require, Edit.liveRq r = true) (hset : Edit.NoNestedIndirectMarker e)
+    (h : Edit.setRequire e want perm = .ok e') :
+    Edit.Inv (Edit.cleanup e') ∧
+    (∀ w ∈ want, ∃ v ∈ Edit.view (Edit.cleanup e').f.syn.stmts, v.toks = [B "require", autoQuote w.path, w.vers] ∧
+      Edit.isIndirectS v.suffix = w.indirect) ∧
+    (∀ v ∈ Edit.view (Edit.cleanup e').f.syn.stmts, v.toks.head? = some (B "require") →
+      ∃ w ∈ want, v.toks = [B "require", autoQuote w.path, w.vers] ∧ Edit.isIndirectS v.suffix = w.indirect) :=
+  Edit.setRequire_tree_exact e e' want perm hperm hg hi hlive hset h
+
+/-- non-vacuity of `setRequire_tree_exact`: a state built from the empty file (invariant: `Props.C15.Inv_empty` +
+    `typed_eq_tree_partial2`) ending with Cleanup: every requirement is live, every line's marker is settable, and
+    SetRequire succeeds in both map-iteration orders -/
+example :
+    (match Edit.runOps Edit.applyMod (Edit.load {})
+        [.addModule (B "example.com/m"), .addRequire (B "example.com/a") (B "v1.0.0"),
+         .addNewRequire (B "example.com/b") (B "v1.2.3") true, .addNewRequire (B "example.com/a") (B "v1.1.0") false, .cleanup] [] 0 with
+     | .done e _ =>
+       let want : List Edit.Want := [⟨B "example.com/e", B "v1.0.0", true⟩, ⟨B "example.com/a", B "v1.9.0", true⟩,
+         ⟨B "example.com/b", B "v1.2.3", false⟩]
+       e.f.require.all Edit.liveRq && (Edit.view e.f.syn.stmts).all (fun v => decide (Edit.MarkerSettable v.suffix)) &&
+         (Edit.setRequire e want (Edit.permOf true)).isOk && (Edit.setRequire e want (Edit.permOf false)).isOk
+     | _ => false) = true := by decide +kernel
 
 /-- Recorded finding (known_findings.json, `c16-indirect:remainder-is-marker`): clearing the indirect marker rewrites
     `// indirect; T` to `// T` without looking at `T`; when `T` is itself an indirect marker (`// indirect; indirect`)
